@@ -18,6 +18,11 @@
 
 #define SYMBOLS_HEAP_SIZE 32768
 
+#if defined(NAKEN_ASM_VERIF) && defined(NAKEN_ASM_VERIF_SYMBOLS_HEAP_SIZE)
+#undef SYMBOLS_HEAP_SIZE
+#define SYMBOLS_HEAP_SIZE NAKEN_ASM_VERIF_SYMBOLS_HEAP_SIZE
+#endif
+
 struct SymbolsIter
 {
   SymbolsIter() :
